@@ -13,4 +13,5 @@ pub mod types {
 //@include frag/types.tpl
 //@include-if client frag/types_client_options.tpl
 //@include-if display frag/display_types.tpl
+//@include-if promise frag/types_collect.tpl
 }
